@@ -23,7 +23,7 @@ func il(v int64) ast.Node                        { return ast.IntLit{V: v} }
 // the call expression rendering its result.
 func pureFunction(r *core.Rng) (defs []ast.Node, callExpr ast.Node, kind string) {
 	deep := ast.Assign{Name: "pdeep", Value: ast.FuncLit{Params: []string{"n"}, Body: ast.If{Cond: ast.Binary{Op: "<=", L: nm("n"), R: il(0)}, Then: il(0), Else: ast.Binary{Op: "+", L: il(1), R: icall("pdeep", ast.Binary{Op: "-", L: nm("n"), R: il(1)})}}}}
-	switch r.Intn(5) {
+	switch r.Intn(6) {
 	case 0, 1: // random typed pure function
 		kind = "typed"
 		o := gen.DefaultOpts()
@@ -77,6 +77,22 @@ func pureFunction(r *core.Rng) (defs []ast.Node, callExpr ast.Node, kind string)
 			ast.ArrayLit{Elems: []ast.Node{nm("acc"), nm(wideName(0)), nm(last)}})
 		defs = []ast.Node{ast.Assign{Name: "pf", Value: ast.FuncLit{Params: []string{"n"}, Body: ast.Block{Stmts: ss}}}}
 		return defs, toa(icall("pf", il(int64(r.Intn(9))))), kind
+	case 4: // a closure generator reading a captured variable after each resume, while the body calls closure-carrying functions
+		kind = "closure-generator"
+		k := int64(r.Range(1, 5))
+		body := ast.Block{Stmts: []ast.Node{
+			ast.Assign{Name: "x", Value: ast.Binary{Op: "*", L: nm("n"), R: il(100)}},
+			ast.Assign{Name: "gen", Value: ast.FuncLit{Body: ast.Block{Stmts: []ast.Node{
+				ast.Yield{X: ast.Binary{Op: "+", L: nm("x"), R: il(1)}}, ast.Yield{X: ast.Binary{Op: "+", L: nm("x"), R: il(2)}}, ast.Yield{X: ast.Binary{Op: "+", L: nm("x"), R: il(3)}}}}}},
+			ast.Assign{Name: "add", Value: ast.FuncLit{Params: []string{"k"}, Body: ast.FuncLit{Params: []string{"z"}, Body: ast.Binary{Op: "+", L: nm("z"), R: nm("k")}}}},
+			ast.Assign{Name: "acc", Value: ast.ArrayLit{}},
+			ast.For{Vars: []string{"v"}, Iters: []ast.Node{icall("gen")}, Body: ast.Block{Stmts: []ast.Node{
+				ast.Assign{Name: "h", Value: icall("add", nm("v"))},
+				ast.Assign{Name: "acc", Value: ast.Binary{Op: "+", L: nm("acc"), R: ast.ArrayLit{Elems: []ast.Node{icall("h", il(k))}}}}}}},
+			nm("acc"),
+		}}
+		defs = []ast.Node{ast.Assign{Name: "pf", Value: ast.FuncLit{Params: []string{"n"}, Body: body}}}
+		return defs, toa(icall("pf", il(int64(r.Range(1, 9))))), kind
 	default: // loops over generators and returned closures inside f
 		kind = "loops-and-returned-closures"
 		body := ast.Block{Stmts: []ast.Node{
@@ -120,7 +136,7 @@ func c03Session(r *core.Rng, defs []ast.Node, call ast.Node) (stmts []ast.Node, 
 	}
 	pls := []pl{
 		{"plain", func(dst string) []ast.Node { return []ast.Node{ast.Assign{Name: dst, Value: call}} }},
-		{"depth-1", atDepth(1)}, {"depth-10", atDepth(10)}, {"depth-130", atDepth(130)}, {"depth-1000", atDepth(1000)},
+		{"depth-1", atDepth(1)}, {"depth-2", atDepth(2)}, {"depth-3", atDepth(3)}, {"depth-4", atDepth(4)}, {"depth-10", atDepth(10)}, {"depth-130", atDepth(130)}, {"depth-1000", atDepth(1000)},
 		{"in-while-body", func(dst string) []ast.Node {
 			return []ast.Node{ast.Block{Stmts: []ast.Node{ast.Assign{Name: "zi", Value: il(0)}, ast.While{Cond: ast.Binary{Op: "<", L: nm("zi"), R: il(3)}, Body: ast.Block{Stmts: []ast.Node{ast.Assign{Name: dst, Value: call}, ast.Assign{Name: "zi", Value: ast.Binary{Op: "+", L: nm("zi"), R: il(1)}}}}}}}}
 		}},
@@ -347,7 +363,7 @@ func init() {
 			{Name: "placements", Count: countFn(1500, 150000), Run: c03Case},
 			{Name: "uninit", Count: countFn(300, 30000), Run: c03Uninit},
 		},
-		Floors: []core.Floor{{Key: "placements_compared", Quick: 12000, Thor: 1200000}, {Key: "tag:placement:", Quick: 13, Thor: 13}, {Key: "tag:function:", Quick: 5, Thor: 5}, {Key: "stack_growths", Quick: 3000, Thor: 300000}, {Key: "context_clone_reuse", Quick: 500, Thor: 50000}},
+		Floors: []core.Floor{{Key: "placements_compared", Quick: 12000, Thor: 1200000}, {Key: "tag:placement:", Quick: 16, Thor: 16}, {Key: "tag:function:", Quick: 6, Thor: 6}, {Key: "stack_growths", Quick: 3000, Thor: 300000}, {Key: "context_clone_reuse", Quick: 500, Thor: 50000}},
 	})
 	core.CaseSeconds["C03/placements"] = 1
 }
